@@ -71,8 +71,12 @@ def sample(recs, seed, k):
 
 
 def oracle_known(info):
-    """Classes where GNU ld and lld agree with each other against the rule and the property text
-    takes the rule's side: none for C02 so far."""
+    """Classes where GNU ld and lld agree with each other against the rule, wild agrees with the rule, and
+    the property text takes the rule's side.  common-meets-lazy-definition: ld and lld extract an archive
+    member that really defines a name which so far is only a COMMON symbol (--fortran-common); C03's text
+    makes only non-weak REFERENCES a reason to load a member, and a COMMON symbol is a definition."""
+    if info.get("flags", {}).get("commonLazy") and symres.same(info["wild"], info["expect"], ASPECTS):
+        return "common-meets-lazy-definition"
     return None
 
 
